@@ -204,6 +204,10 @@ class ConcurrentExecutor(ABC, Generic[CallableType, ResultType]):
         self._completion_event.clear()
         self._suspend_exception = None
 
+        if not self.executables_with_state:
+            # nothing to run: no task would ever signal completion (and a pool needs max_workers > 0)
+            return self._create_result()
+
         def resubmitter(executable_with_state: ExecutableWithState) -> None:
             """Resubmit a timed suspended task."""
             execution_state.create_checkpoint()
